@@ -8,6 +8,7 @@ SPEC_MODE = "nocrash"
 RULE = ("every string up to length 5 (thorough 6) over the 14-symbol core alphabet through line_to_cmds, parse_line and the whole planning "
         "pipeline (CommandLine::from_line: tokenizer, seven expansion passes, env draining, pipe splitting, redirections) in-process under "
         "catch_unwind and a fork watchdog; random lines/token lists over a wider alphabet through every single pass; "
+        "the interactive highlighter (highlight ranges in bytes) on every string <= 4 (thorough 5) over a 16-symbol alphabet with quotes, escapes, operators, builtin names, multi-byte letters and multi-byte white space, and on random lines; "
         "non-trivial = distinct inputs on which the model takes a non-default outcome (error, panic, hang) or produces >= 2 tokens/commands")
 
 
@@ -78,6 +79,16 @@ def generate(tier, rng):
         cases.append(Case("unq", [hx(s)], {"gen": "g"}))
         cases.append(Case("oneenv", [env, hx(s)], {"gen": "g"}))
         cases.append(Case("wrap", [hx(r.choice(["", "'", '"', "`"])), hx(s)], {"gen": "g"}))
+    # the interactive highlighter (src/highlight.rs): every string <= 4 (thorough 5) over an alphabet with quotes, escapes,
+    # operators, builtin names, multi-byte letters and multi-byte white space; plus the random lines
+    HL = ["a", "cd", " ", "'", '"', "\\", "|", "&", ";", ">", "<", "$", "é", "日", "\u3000", "="]
+    for s_ in gens.all_strings(HL, 4 if tier == "quick" else 5, 1):
+        cases.append(Case("hl", [hx(s_)], {"gen": "e"}))
+    for _ in range(n):
+        cases.append(Case("hl", [hx(gens.rand_line(r))], {"gen": "g"}))
+        cases.append(Case("hl", [hx(gens.rand_string(r, gens.C05_ALPHA + ["\u3000", "日本", "cd", "alias"], 0, 10))], {"gen": "g"}))
+    for w in ['é"', '日本"語"', "名前='x'", "ü\\>x", 'a"b c"', "echo é", 'echo "é x"', "\u3000\u3000cd x", " \u3000 ls | cd", "cd;alias"]:
+        cases.append(Case("hl", [hx(w)], {"gen": "corpus"}))
     return cases
 
 
